@@ -8,7 +8,27 @@ BASE_NOTE = ("Trusted base: TLC + CommunityModules, CPython/asyncio/ElementTree,
              "abstraction code; TLC results are exhaustive only inside the stated bounds, beyond them the claim rests "
              "on the seeded conformance runs.")
 
+CODEC_TECH = "TLA+ spec (Codec.tla) + TLC case enumeration with theorem checking; one implementation test per TLC-generated case"
 CHECKS = {
+    "C03": dict(
+        text="Codec.tla transcribes the serialiser/parser at infoset level (dispatch on tag, required attributes, vocabularies, child "
+             "kinds, number syntax, dropped unknown attributes, trimmed text, empty = absent). TLC enumerates every valid message of "
+             "the bounded grammar (21 kinds x optional-attribute subsets x 0..MaxCh children x 11 value classes), checks RoundTrip and "
+             "Idempotent on each and exports it with its normal form; each case is executed on the real classes with several concrete "
+             "strings per class and in foreign XML spellings, and the independent structural projection must equal TLC's normal form and "
+             "re-serialisation must be byte-identical.",
+        design="6/C03", technique=CODEC_TECH),
+    "C13": dict(
+        text="TLC generates XML infosets with one systematic perturbation of each constrained field / required attribute / child kind / "
+             "tag (OnlyConformant checked on the model); each is written as XML and given to the real parser together with seeded random "
+             "XML; the projection of everything the real parser accepts is sent back to TLC, which evaluates the declarative predicate "
+             "Conformant on it (one-directional: rejecting is always fine).",
+        design="6/C13", technique=CODEC_TECH + "; TLC judges the real parser's outputs (CodecJudge.tla)"),
+    "C20": dict(
+        text="TLC generates pairs (message, single-point perturbation or rebuilt copy) over the codec grammar with the structural verdict "
+             "a = b on the abstract trees (EqIffSame checked on the model); both sides are built as real objects (fresh, through the wire, "
+             "and by editing a compared copy in place) and ==/!= in both directions must agree with TLC's verdict.",
+        design="6/C20", technique=CODEC_TECH),
     "C04": dict(
         text="Router.tla (one action per Router method, process_message as the code's two loops) is model-checked "
              "exhaustively by TLC against the declarative statements ToDevices/NoLeak on every transition of the bounded "
